@@ -348,12 +348,35 @@ class FIXNewOrderSingle:
             }
 
         elif fix_msg_type == FMsg.ORDERCANCELREJECT:  # '9'
+            # reject carries the order status as seen by the exchange
+            adopt_reported = {
+                FOrdStatus.CREATED: FIXError,
+                FOrdStatus.ACCEPTED_FOR_BIDDING: FIXError,
+                None: True,
+            }
             status_transitions = {
+                # finished orders never come back
+                FOrdStatus.FILLED: {None: None},
+                FOrdStatus.CANCELED: {None: None},
+                FOrdStatus.REJECTED: {None: None},
+                FOrdStatus.EXPIRED: {None: None},
+                # not acknowledged orders
+                FOrdStatus.CREATED: {
+                    FOrdStatus.PENDING_NEW: True,
+                    FOrdStatus.REJECTED: True,
+                    None: FIXError,
+                },
+                FOrdStatus.PENDING_NEW: adopt_reported,
+                # request is pending
+                FOrdStatus.PENDING_CANCEL: adopt_reported,
+                FOrdStatus.PENDING_REPLACE: adopt_reported,
+                # acknowledged orders never go back to PENDING_NEW
                 None: {
                     FOrdStatus.CREATED: FIXError,
                     FOrdStatus.ACCEPTED_FOR_BIDDING: FIXError,
+                    FOrdStatus.PENDING_NEW: FIXError,
                     None: True,
-                }
+                },
             }
         elif (
             fix_msg_type == FMsg.ORDERCANCELREQUEST
@@ -369,7 +392,9 @@ class FIXNewOrderSingle:
             }
 
         if not status_transitions:
-            raise FIXError(f"No status transition table for {fix_msg_type=}")
+            if raise_on_err:
+                raise FIXError(f"No status transition table for {fix_msg_type=}")
+            return None
 
         s = status_transitions.get(status, status_transitions[None])
         if isinstance(s, dict) and "exec_type" in s:
